@@ -203,6 +203,29 @@ func c19Run(c *vcore.Ctx) *vcore.Violation {
 				return v
 			}
 		case "recv", "recv_small":
+			if !e.closed && !peer.closed && len(e.in) == 0 && src.Bool(1, 3, "recv_nothing_queued") {
+				// a receive with nothing queued that gives up at its deadline: a failed receive that
+				// consumed nothing must leave the stream (and the stateful gob decoder) as it was
+				e.raw.SetDeadline(time.Now().Add(3 * time.Millisecond))
+				var err error
+				if gob {
+					if from == 0 {
+						_, _, _, err = e.framed.VRecvReply()
+					} else {
+						_, _, _, _, err = e.framed.VRecvCmd()
+					}
+				} else {
+					_, _, err = e.raw.RecvMsg(make([]byte, 4096))
+				}
+				e.raw.SetDeadline(time.Time{})
+				c.Fault("receive_times_out_with_nothing_queued")
+				c.Event("recv_timeout")
+				c.Logf("%s recv with nothing queued -> err=%v", e.name, err)
+				if err == nil {
+					return vcore.Violate(prop, "wrong_message", layer+"/phantom", "a receive with nothing queued returned a message")
+				}
+				continue
+			}
 			if e.closed || len(e.in) == 0 {
 				continue // never block: receive only what the model says is queued
 			}
